@@ -170,11 +170,6 @@ func (e *Engine) runPath(sol *Solver, fn *ssa.Function, prefix []Decision) (res 
 		res.Violations = ex.violations
 		res.KnownSeen = ex.knownSeen
 	}
-	for _, rr := range ex.races {
-		ex.classifyRace(rr)
-	}
-	res.Violations = ex.violations
-	res.KnownSeen = ex.knownSeen
 	// witness of the whole path (for co-execution)
 	if res.Outcome == "completed" || res.Outcome == "stop" || res.Outcome == "panic" {
 		terms := ex.modelTerms()
@@ -187,6 +182,13 @@ func (e *Engine) runPath(sol *Solver, fn *ssa.Function, prefix []Decision) (res 
 			res.Outcome = "infeasible"
 		}
 	}
+	if res.Outcome != "infeasible" {
+		for _, rr := range ex.races {
+			ex.classifyRace(rr, res.Witness)
+		}
+	}
+	res.Violations = ex.violations
+	res.KnownSeen = ex.knownSeen
 	return res, ex.alts
 }
 
